@@ -985,12 +985,18 @@ pub fn gen_family(rng: &mut Rng, family: &str) -> Prog {
 }
 
 pub fn gen_prog(rng: &mut Rng) -> Prog {
+	if rng.chance(1, 4) {
+		return crate::randprog::gen_random(rng);
+	}
 	let f = *rng.pick(&FAMILIES);
 	gen_family(rng, f)
 }
 
 /// Programs whose output could expose iteration order
 pub fn gen_order_sensitive(rng: &mut Rng) -> Prog {
+	if rng.chance(1, 5) {
+		return crate::randprog::gen_random(rng);
+	}
 	let fams = [
 		"field-listing",
 		"field-listing",
